@@ -73,7 +73,7 @@ fn dist3(a: &[f64; 3], b: &[f64; 3]) -> f64 {
 /// obligations common to between_vectors (unit inputs) and from_arc (normalised inputs)
 fn check_rotation(q: &Quaternion<f64>, a: &[f64; 3], b: &[f64; 3], cls: &str, near: f64, what: &str) -> Result<(), Outcome> {
     let n = q.magnitude();
-    vcore::ensure_r!((n - 1.0).abs() <= 1e-12, "not-unit", "{}: |q| = {}", what, n);
+    vcore::ensure_r!((n - 1.0).abs() <= 8e-15, "not-unit", "{}: |q| = {}", what, n);
     let th = angle3(a, b);
     let thstar = th.min(PI - th);
     let img = v3(q * Vector3::from(*a));
@@ -113,7 +113,7 @@ fn between3_f64(d: &mut Draw) -> Outcome {
     vcore::tryo!(check_rotation(&q, &a, &b, cls, 1e-7, "Quaternion::between_vectors"));
     if cls == "opposite" {
         ensure!(q.s == 0.0, "opposite-scalar-exact", "exactly opposite vectors: scalar part must be 0, got {}", q.s);
-        ensure!((q.v.magnitude() - 1.0).abs() <= 1e-12, "opposite-axis-unit", "axis not unit");
+        ensure!((q.v.magnitude() - 1.0).abs() <= 8e-15, "opposite-axis-unit", "axis not unit");
     }
     let bs: Basis3<f64> = Rotation::between_vectors(va, vb);
     let e = Matrix3::from(bs).rm().max_abs_diff(&Matrix3::from(q).rm());
@@ -153,8 +153,8 @@ fn between2_f64(d: &mut Draw) -> Outcome {
     let m: Matrix2<f64> = r.into();
     d.note("rotation", &m);
     let ortho = (m * m.transpose()).rm().max_abs_diff(&RM::ident(2));
-    ensure!(ortho <= 1e-12, "not-orthonormal", "R R^T differs from I by {:e}", ortho);
-    ensure!((m.determinant() - 1.0).abs() <= 1e-12, "det", "det = {}", m.determinant());
+    ensure!(ortho <= 8e-15, "not-orthonormal", "R R^T differs from I by {:e}", ortho);
+    ensure!((m.determinant() - 1.0).abs() <= 8e-15, "det", "det = {}", m.determinant());
     let img = r.rotate_vector(Vector2::from(a));
     let err = ((img.x - b[0]).powi(2) + (img.y - b[1]).powi(2)).sqrt();
     let cross = a[0] * b[1] - a[1] * b[0];
